@@ -14,6 +14,7 @@ import random
 
 from .. import conc, concshards as cs, detsched as D
 from ..common import rng_for
+from ..vias import COPYING
 
 PROPERTY = 'C07'
 LEVEL = 'exploration'
@@ -97,6 +98,28 @@ def run_shard(spec, res):
                     # stopping early must not let the read-ahead grow either
                     sc2 = dict(sc, stop=['close', 2])
                     on_run(sc2, conc.run(sc2, D.starve_consumer_chooser()))
+                    # the buffer size is a parameter of the stage: it bounds
+                    # the read-ahead of every copy of the stage as well
+                    if not key and entry in ('pf1', 'pft', 'parmap'):
+                        for path in COPYING:
+                            sc3 = dict(sc, path=path)
+                            on_run(sc3, conc.run(sc3, D.starve_consumer_chooser()))
+                            res.count('executions_through_copies')
+                            sd = rng.randrange(1 << 30)
+                            on_run(sc3, conc.run(sc3, cs.chooser_for(
+                                'random', random.Random(sd))))
+            # degenerate buffer sizes: refused, or bounded like any other
+            if spec['rem'] == 0:
+                for entry, w in (('pf1', 1), ('pft', 2), ('parmap', 1), ('parmap', 2)):
+                    for b in (0, -1):
+                        sc = cs.make(entry, 12, b, w, may_refuse=True)
+                        r = conc.run(sc, D.starve_consumer_chooser())
+                        res.count('degenerate_buffer_size_cases')
+                        if r.get('outcome') and r['outcome'][0] in ('build-refused', 'raised') \
+                                and not r['delivered']:
+                            res.count('degenerate_buffer_size_refused')
+                            continue
+                        on_run(sc, r)
             res.sample({'scenario': cs.make(*cfgs[spec['rem'] % len(cfgs)]),
                         'schedule': 'starve-the-consumer',
                         'events': 'pull i / start i / end i / deliver v'})
